@@ -34,10 +34,25 @@ impl ResolvedCalendarFields {
         overflow: ArithmeticOverflow,
         resolve_type: ResolutionType,
     ) -> TemporalResult<Self> {
-        let era_year = EraYear::try_from_partial_date(partial_date)?;
+        // An ISO month-day needs no year: without one the reference year 1972 (a leap
+        // year) stands in for it.
+        let era_year = if resolve_type == ResolutionType::MonthDay
+            && partial_date.calendar.is_iso()
+            && partial_date.year.is_none()
+            && partial_date.era.is_none()
+            && partial_date.era_year.is_none()
+        {
+            EraYear {
+                era: None,
+                year: 1972,
+            }
+        } else {
+            EraYear::try_from_partial_date(partial_date)?
+        };
         if partial_date.calendar.is_iso() {
-            let month_code = resolve_iso_month(partial_date, overflow)?;
+            // A missing field (TypeError) is reported before an invalid one (RangeError).
             let day = resolve_day(partial_date.day, resolve_type == ResolutionType::YearMonth)?;
+            let month_code = resolve_iso_month(partial_date, overflow)?;
             let day = if overflow == ArithmeticOverflow::Constrain {
                 constrain_iso_day(era_year.year, month_code.to_month_integer(), day)
             } else {
